@@ -16,12 +16,13 @@ func init() {
 		ID: "C20", Title: "Zip helpers: lossless round trip and extraction confined to target",
 		Pkgs:      []string{"files"},
 		Run:       runC20,
-		Technique: "static analysis: forward taint from zip entry names to file-creating sinks (with summaries of repository helpers) sanitised only by a dominating containment guard; shape check of the containment predicate (go/ssa)",
+		Technique: "static analysis: forward taint from zip entry names to file-creating sinks (with summaries of repository helpers) sanitised only by a dominating containment guard; shape check of the containment predicate; path enumeration of the walk callback with a per-path boolean valuation (go/ssa)",
 		Explanation: "R1: no value derived from archive/zip entry names (File.Name / FileHeader.Name, through filepath.Join/Split/Dir/Clean/Base, concatenation, Sprintf, phi) reaches a file-system creating call (os.Create, os.OpenFile, os.Mkdir(All), os.WriteFile, os.Rename, and repository functions whose parameter reaches one) unless the sink is dominated by the true edge of a containment test applied to that value (or to the value it is the Dir of). " +
 			"R3: the name ZipFolder/ZipWriter gives an archive entry derives from the walked file path only through injective operations (slicing off the source prefix, filepath.Rel, Join, ToSlash, TrimPrefix); cut-set trims, case folding, Replace and Base are rejected - a necessary condition of the lossless round trip. " +
 			"R4: files are created truncating (os.Create, or os.OpenFile with O_TRUNC/O_EXCL). " +
-			"R2: the containment test is filepath.IsLocal, or a repository predicate built from filepath.Rel plus the '..' test, or strings.HasPrefix against a prefix that ends with a path separator; a bare string-prefix test (which accepts sibling directories such as out-old for out) is rejected.",
-		NotDecided: "the lossless round trip ZipFolder -> UnzipToFolder as such (equal relative paths and contents for every tree; filter and recursive flag semantics) is a value statement over file trees; only injectivity of the name mapping (R3) is decided; symbolic links already present inside the destination.",
+			"R2: the containment test is filepath.IsLocal, or a repository predicate built from filepath.Rel plus the '..' test, or strings.HasPrefix against a prefix that ends with a path separator; a bare string-prefix test (which accepts sibling directories such as out-old for out) is rejected. " +
+			"R5: in the walk callback a file reaches the archive write only on paths on which BOTH selection inputs decided so: the filter is nil or was called on the walked path and returned true, and the recursive flag is true or the comparison of the file's directory with the source directory decided 'same directory' (paths enumerated with phi operands resolved per path, so an overwritten flag variable counts as not decided).",
+		NotDecided: "the lossless round trip ZipFolder -> UnzipToFolder as such (equal relative paths and contents for every tree) is a value statement over file trees; injectivity of the name mapping (R3) and the selection clause (R5: both selection inputs decide on every path) are the structural parts decided; symbolic links already present inside the destination.",
 		Trusted:    []string{"archive/zip entry names are attacker controlled", "filepath.Rel / filepath.IsLocal semantics"},
 	})
 }
